@@ -247,6 +247,51 @@ fn run(ctx: &mut Ctx) {
             }
         }
     }
+    // diagonals: the callsign spells the aircraft's own address in hexadecimal, or the four digits of the squawk the
+    // row shows (in a DF21 whose identity field and MB field say the same, and in a DF20 after a DF5)
+    for opts in CFG4 {
+        let cfg = Cfg::new(opts);
+        job += 1;
+        if ctx.mine(job) {
+            let mut own: Vec<V> = vec![];
+            for i in 0..1024u32 {
+                let chars = frames::callsign_codes(&format!("{:06X}", BASE + i));
+                own.push(V { chars, tc: 4, ca: 3, update: i % 2 == 1, carrier: if i % 4 < 2 { Carrier::Ident } else { Carrier::Bds20 { df: 20 + (i / 4) % 2, pre: 2 } }, prev: None });
+            }
+            let mut res: Vec<(V, u32, Obs)> = vec![];
+            sweep(&cfg, &own, BASE, lines, |v, a, o| res.push((*v, a, o.clone())));
+            for (v, a, o) in &res {
+                ctx.count("diagonal:callsign-spells-address");
+                judge(ctx, &cfg, v, *a, o);
+            }
+        }
+        for block in 0..4u32 {
+            job += 1;
+            if !ctx.mine(job) {
+                continue;
+            }
+            for s in (block * 1024)..((block + 1) * 1024) {
+                let sq = (s >> 9 & 7) * 1000 + (s >> 6 & 7) * 100 + (s >> 3 & 7) * 10 + (s & 7);
+                let digits = format!("{sq:04}");
+                let chars = frames::callsign_codes(&digits);
+                let addr = 0x48A000 + s;
+                for form in 0..2 {
+                    let l: Vec<Vec<u8>> = if form == 0 {
+                        vec![hexline(&frames::df11(5, addr, 0)), hexline(&frames::df5(addr, frames::id13_for_squawk(sq))), hexline(&frames::df20(addr, frames::ac13_for_alt(7000), frames::mb_bds20(chars)))]
+                    } else {
+                        vec![hexline(&frames::df11(5, addr, 0)), hexline(&frames::df21(addr, frames::id13_for_squawk(sq), frames::mb_bds20(chars))), hexline(&frames::df21(addr, frames::id13_for_squawk(sq), frames::mb_bds20(chars)))]
+                    };
+                    let o = crate::engine::sweep::single(&cfg, addr, l);
+                    ctx.eval();
+                    ctx.count("diagonal:callsign-spells-squawk");
+                    let got = o.row().and_then(|r| r.ais.clone());
+                    if got.as_deref() != Some(digits.as_str()) {
+                        ctx.violation(&format!("C07/diagonal-squawk/{}", cfg.label()), &format!("{digits}/form{form}"), || format!("an aircraft squawking {digits} reports the flight id \"{digits}\" by BDS 2,0 ({}): callsign shown {got:?}", if form == 0 { "DF5 then DF20" } else { "DF21 carrying both, twice" }), || json!({"diag_squawk": s, "form": form, "cfg": cfg.opts}));
+                    }
+                }
+            }
+        }
+    }
     job += 1;
     if ctx.mine(job) {
         wake_column(ctx);
@@ -257,7 +302,34 @@ fn run(ctx: &mut Ctx) {
     ctx.out.exhaustive = true;
 }
 
+fn replay_diag(ctx: &mut Ctx, case: &Value) -> bool {
+    let Some(s) = case.get("diag_squawk").and_then(|x| x.as_u64()) else { return false };
+    let s = s as u32;
+    let form = case.get("form").and_then(|x| x.as_u64()).unwrap_or(0);
+    let opts: Vec<String> = case.get("cfg").and_then(|c| c.as_array()).map(|a| a.iter().filter_map(|x| x.as_str().map(String::from)).collect()).unwrap_or_default();
+    let o: Vec<&str> = opts.iter().map(|s| s.as_str()).collect();
+    let cfg = Cfg::new(&o);
+    let sq = (s >> 9 & 7) * 1000 + (s >> 6 & 7) * 100 + (s >> 3 & 7) * 10 + (s & 7);
+    let digits = format!("{sq:04}");
+    let chars = frames::callsign_codes(&digits);
+    let addr = 0x48A000 + s;
+    let l: Vec<Vec<u8>> = if form == 0 {
+        vec![hexline(&frames::df11(5, addr, 0)), hexline(&frames::df5(addr, frames::id13_for_squawk(sq))), hexline(&frames::df20(addr, frames::ac13_for_alt(7000), frames::mb_bds20(chars)))]
+    } else {
+        vec![hexline(&frames::df11(5, addr, 0)), hexline(&frames::df21(addr, frames::id13_for_squawk(sq), frames::mb_bds20(chars))), hexline(&frames::df21(addr, frames::id13_for_squawk(sq), frames::mb_bds20(chars)))]
+    };
+    let got = crate::engine::sweep::single(&cfg, addr, l).row().and_then(|r| r.ais.clone());
+    crate::run::say(&format!("squawk {digits} and flight id \"{digits}\" (form {form}), cfg [{}]: callsign shown {got:?}", cfg.label()));
+    if got.as_deref() != Some(digits.as_str()) {
+        ctx.violation("C07/diagonal-squawk", &digits, || format!("callsign {got:?}"), || case.clone());
+    }
+    true
+}
+
 fn replay(ctx: &mut Ctx, case: &Value) {
+    if replay_diag(ctx, case) {
+        return;
+    }
     if case.get("wake").is_some() {
         wake_column(ctx);
         return;
